@@ -92,6 +92,8 @@ def build_emit(args):
         if len(lines) != 1:
             raise Machinery(f"C18 text gives {len(lines)} amplitudes:\n{text}")
         code = lines[0].to_goofit(states[1:])
+        if lines[0].to_goofit(states[1:]) != code:
+            raise RuntimeError("the same amplitude object emits another text when asked again")
         sfs, lss, n = goofitio.read_amplitude(code, lang)
         obs.update(sfs=sfs, lss=lss, n=n)
         # group i of the spin factors and group i of the lineshapes are what GooFit combines for permutation i
